@@ -26,6 +26,8 @@ import (
 
 	hatypes "github.com/jcmoraisjr/haproxy-ingress/pkg/haproxy/types"
 
+	"sigs.k8s.io/controller-runtime/pkg/client"
+
 	"verif/harness/lib/cfgnorm"
 	"verif/harness/lib/fakehaproxy"
 	"verif/harness/lib/hx"
@@ -38,8 +40,9 @@ var workdir string
 // ---------------------------------------------------------------- running one history
 
 type lineObs struct {
-	Cert   string `json:"cert"`
-	Filter string `json:"filter"`
+	Cert    string `json:"cert"`
+	Options string `json:"options,omitempty"`
+	Filter  string `json:"filter"`
 }
 
 type stepObs struct {
@@ -55,9 +58,14 @@ type stepObs struct {
 	coq     string
 	dyn     string      // Coq term of the kdyn record of this step ("" = none)
 	DynJS   interface{} `json:"dyn,omitempty"`
+	inst    string      // Coq term of the kinst record of this step (hosts level)
+	// Raw: ssl-passthrough: backend the raw TLS stream of the name is sent to ("" = none)
+	Raw map[string]string `json:"raw,omitempty"`
 }
 
 type runner struct {
+	names   []string
+	extra   []client.Object
 	wantCoq bool
 	p       *pipeline.Pipeline
 	fake    *fakehaproxy.Fake
@@ -71,8 +79,8 @@ func newRunner(in input, tag string) (*runner, error) {
 	runSeq++
 	dir := filepath.Join(workdir, fmt.Sprintf("%s%d", tag, runSeq%4))
 	os.RemoveAll(dir)
-	r := &runner{dir: dir}
-	opt := pipeline.Options{Dir: dir + "/p", WatchWithoutClass: true, DefaultSSLCertificate: in.DefaultSecret, AllowCrossNamespace: in.CrossNS}
+	r := &runner{dir: dir, names: universe(in), extra: extraObjects(in)}
+	opt := pipeline.Options{Dir: dir + "/p", WatchWithoutClass: true, DefaultSSLCertificate: in.DefaultSecret, AllowCrossNamespace: in.CrossNS, HasGatewayV1: in.Gateway}
 	if in.Socket {
 		if err := os.MkdirAll(dir+"/s", 0o755); err != nil {
 			return nil, err
@@ -135,7 +143,7 @@ func (r *runner) step(b []op, first bool) (*stepObs, error) {
 	if r.fake != nil {
 		r.fake.Begin(nil)
 	}
-	if err := r.p.Apply(toBatch(b, first)); err != nil {
+	if err := r.p.Apply(toBatch(b, first, r.extra...)); err != nil {
 		return nil, fmt.Errorf("apply: %v", err)
 	}
 	o := &stepObs{Served: map[string]string{}, Reloads: r.p.Reloads() - before}
@@ -149,11 +157,28 @@ func (r *runner) step(b []op, first bool) (*stepObs, error) {
 	}
 	for _, e := range crt {
 		for _, f := range e.Filters {
-			o.Lines = append(o.Lines, lineObs{Cert: e.Cert, Filter: f})
+			o.Lines = append(o.Lines, lineObs{Cert: e.Cert, Options: e.Options, Filter: f})
 		}
 	}
-	for _, n := range sniNames {
+	for _, n := range r.names {
 		o.Served[n] = sem.SNICert(crt, n)
+	}
+	if nf.Frontend("_front__tls") != nil {
+		o.Raw = map[string]string{}
+		for _, n := range r.names {
+			if rt := cfgnorm.Route(nf, cfgnorm.Request{Scheme: "https", Host: n, Path: "/"}); rt.Detail == "ssl-passthrough" {
+				o.Raw[n] = rt.Backend
+			}
+		}
+	}
+	o.inst = coqInst(r.p)
+	if os.Getenv("C15_DEBUG") != "" {
+		var hs []string
+		for n, h := range r.p.Config().Hosts().Items() {
+			hs = append(hs, fmt.Sprintf("%s[tls=%s paths=%d]", n, filepath.Base(h.TLS.TLSFilename), len(h.Paths)))
+		}
+		sort.Strings(hs)
+		fmt.Fprintf(os.Stderr, "DEBUG hosts=%v fullsync=%v links=%v\n  conv=%v\n", hs, r.p.Last.Runs[0].Changed.NeedFullSync, r.p.Last.Runs[0].Changed.Links, r.p.ConvLog.Take())
 	}
 	if r.fake != nil {
 		ex, _ := r.fake.Snapshot()
@@ -188,6 +213,46 @@ func (r *runner) step(b []op, first bool) (*stepObs, error) {
 		}
 	}
 	return o, nil
+}
+
+// universe: the SNI names looked at.
+func universe(in input) []string {
+	names := append([]string{}, sniNames...)
+	seen := map[string]bool{}
+	for _, n := range names {
+		seen[n] = true
+	}
+	add := func(n string) {
+		if n != "" && !seen[n] {
+			seen[n] = true
+			names = append(names, n)
+		}
+	}
+	if in.Gateway {
+		for _, n := range gwHosts {
+			add(n)
+		}
+		add("x.gw.example")
+	}
+	for _, b := range in.History {
+		for _, o := range b {
+			for _, h := range o.Rules {
+				add(h)
+			}
+			for _, t := range o.TLS {
+				for _, h := range t.Hosts {
+					add(h)
+				}
+			}
+			for _, l := range o.Listeners {
+				add(l.Host)
+				for _, h := range l.Routes {
+					add(h)
+				}
+			}
+		}
+	}
+	return names
 }
 
 func firstWords(s string, n int) string {
@@ -270,7 +335,7 @@ func check(in input, res *hx.Result, count, wantCoq bool) ([]failure, []*stepObs
 		c.apply(b)
 		v := newView(c.clone(), in.DefaultSecret, in.CrossNS)
 		bad := map[string]bool{}
-		for _, n := range sniNames {
+		for _, n := range r.names {
 			e := v.expect(n)
 			got := o.Served[n]
 			if count {
@@ -279,8 +344,67 @@ func check(in input, res *hx.Result, count, wantCoq bool) ([]failure, []*stepObs
 				if e.Content != v.defContent {
 					res.Count("name_served_custom")
 				}
+				if e.Note != "" {
+					res.Count("note_" + e.Note)
+				}
 			}
-			if got == e.Content {
+			if e.Passthrough {
+				// the TLS stream of the name is routed raw; HAProxy has no certificate for it
+				if o.Raw[n] != e.Backend {
+					bad[n] = true
+					add(failure{key: "C15/passthrough-not-raw", step: i, what: fmt.Sprintf("step %d: ssl-passthrough host %s: the raw TLS stream goes to %q, expected backend %s", i, n, o.Raw[n], e.Backend),
+						observed: map[string]interface{}{"raw": o.Raw, "crt_list": o.Lines}, expected: e})
+				}
+				for _, l := range o.Lines {
+					if l.Filter == n {
+						bad[n] = true
+						add(failure{key: "C15/passthrough-has-crt-list-line", step: i, what: fmt.Sprintf("step %d: ssl-passthrough host %s has a crt-list line (%s)", i, n, l.Cert),
+							observed: map[string]interface{}{"crt_list": o.Lines}, expected: e})
+					}
+				}
+				continue
+			}
+			if o.Raw[n] != "" {
+				bad[n] = true
+				if db, ok := v.passthrough(""); ok && o.Raw[n] == db {
+					// the default host asks for ssl-passthrough: names that are no https host go there
+					if e.Class == "unknown" || (e.Class == "host-without-tls" && !e.HTTPS) {
+						continue
+					}
+					add(failure{key: "C15/default-host-passthrough-captures-all-sni", step: i,
+						what:     fmt.Sprintf("step %d: %s (%s) terminates TLS on HAProxy with its own certificate, but an ingress with an empty host and ssl-passthrough makes the TCP frontend send EVERY SNI raw to %s", i, n, e.Class, db),
+						observed: map[string]interface{}{"raw": o.Raw}, expected: e})
+					continue
+				}
+				add(failure{key: "C15/raw-routing-of-terminated-host", step: i, what: fmt.Sprintf("step %d: %s is no ssl-passthrough host but its TLS stream is sent raw to %s", i, n, o.Raw[n]),
+					observed: map[string]interface{}{"raw": o.Raw}, expected: e})
+				continue
+			}
+			if e.CA != "" {
+				found := false
+				for _, l := range o.Lines {
+					if l.Filter == n && strings.Contains(l.Options, "ca-file <pem:"+e.CA+">") {
+						found = true
+					}
+				}
+				if count {
+					res.OracleChecks++
+					res.Count("name_auth_tls")
+				}
+				if !found {
+					add(failure{key: "C15/auth-tls-ca-missing", step: i, what: fmt.Sprintf("step %d: auth-tls host %s: no crt-list line of the host carries ca-file with the content %s of its CA secret", i, n, e.CA),
+						observed: map[string]interface{}{"crt_list": o.Lines}, expected: e})
+				}
+			}
+			if len(e.Allowed) > 0 {
+				ok := false
+				for _, a := range e.Allowed {
+					ok = ok || a == got
+				}
+				if ok {
+					continue
+				}
+			} else if got == e.Content {
 				continue
 			}
 			bad[n] = true
@@ -307,11 +431,14 @@ func check(in input, res *hx.Result, count, wantCoq bool) ([]failure, []*stepObs
 			for _, x := range b {
 				touched[x.NS+"/"+x.Name] = true
 			}
-			for _, n := range sniNames {
+			for _, n := range r.names {
 				if count {
 					res.OracleChecks++
 				}
 				if bad[n] || prevBad[n] || prev.Served[n] == o.Served[n] {
+					continue
+				}
+				if e0, e1 := prevView.expect(n), v.expect(n); e0.Passthrough || e1.Passthrough || len(e0.Allowed) > 0 || len(e1.Allowed) > 0 {
 					continue
 				}
 				k0, k1 := prevView.effectiveKey(n), v.effectiveKey(n)
@@ -459,14 +586,22 @@ func main() {
 			jobs = append(jobs, job{in: input{History: genHistory(rng, genCfg{foreign: true}, 1+rng.Intn(4))}, corr: !o.Search})
 		}
 		for i := 0; i < nWide; i++ {
-			in := input{History: genHistory(rng, genCfg{foreign: true, ann: true}, 1+rng.Intn(4))}
+			cfg := genCfg{foreign: true, ann: true}
+			var in input
 			if i%3 == 0 {
 				in.DefaultSecret = "ns1/tls-2"
+				cfg.defsec = in.DefaultSecret
 			}
 			if i%4 == 1 {
 				in.CrossNS = true
 			}
-			jobs = append(jobs, job{in: in})
+			if i%5 >= 3 {
+				in.Gateway = true
+				cfg.gateway = true
+				cfg.ann = i%5 == 4
+			}
+			in.History = genHistory(rng, cfg, 1+rng.Intn(4))
+			jobs = append(jobs, job{in: in, corr: !o.Search})
 		}
 		for i := 0; i < nSock; i++ {
 			jobs = append(jobs, job{in: input{History: genHistory(rng, genCfg{foreign: true}, 1+rng.Intn(4)), Socket: true}, corr: !o.Search})
@@ -476,10 +611,12 @@ func main() {
 	seenKeys := map[string]bool{}
 	certCmds, certCmdSteps := 0, 0
 	var certSample []interface{}
+	var probes []interface{}
 	for ji, j := range jobs {
 		in := j.in
 		canon, _ := json.Marshal(in)
-		fails, obs, err := check(in, res, true, j.corr && in.DefaultSecret == "" && !in.CrossNS)
+		conv := j.corr && in.DefaultSecret == "" && !in.CrossNS && !in.Gateway && !in.Probe
+		fails, obs, err := check(in, res, true, conv)
 		if err != nil {
 			res.Count("harness_error")
 			res.Fail(hx.Failure{Key: "C15/update-error", What: "running the history failed: " + err.Error(), Input: in})
@@ -511,6 +648,9 @@ func main() {
 		if in.CrossNS {
 			res.Count("mode_allow_cross_namespace")
 		}
+		if in.Gateway {
+			res.Count("mode_gateway")
+		}
 		for _, b := range in.History[min(1, len(in.History)):] {
 			for _, x := range b {
 				res.Count("change_" + x.Op + "_" + x.Kind)
@@ -518,6 +658,14 @@ func main() {
 		}
 		if ji < 3 || (len(res.Samples) < 5 && custom && partial) {
 			res.Sample(5, map[string]interface{}{"history": describe(in.History), "observed_last": obs[len(obs)-1]})
+		}
+		if in.Probe {
+			var ob []string
+			for _, f := range fails {
+				ob = append(ob, f.key+": "+f.what)
+			}
+			probes = append(probes, map[string]interface{}{"input": describe(in.History), "observations": ob})
+			fails = nil
 		}
 		for _, f := range fails {
 			res.Count("oracle_fail_" + f.key)
@@ -552,8 +700,8 @@ func main() {
 			}
 			res.Fail(hx.Failure{Key: f.key, What: f.what + " -- " + strings.Join(describe(m.History), " / "), Input: m, Observed: f.observed, Expected: f.expected})
 		}
-		if j.corr && in.DefaultSecret == "" && !in.CrossNS {
-			emitCase(cw, res, in, obs)
+		if j.corr {
+			emitCase(cw, res, in, obs, conv)
 		}
 	}
 	res.Extra["runtime"] = map[string]interface{}{
@@ -564,6 +712,9 @@ func main() {
 		"content_only_steps":          res.Distribution["socket_content_only_steps"],
 		"content_only_without_reload": res.Distribution["socket_content_only_dynamic"],
 		"content_only_with_reload":    res.Distribution["socket_content_only_reloaded"],
+	}
+	if len(probes) > 0 {
+		res.Extra["probes_with_names_kubernetes_rejects"] = probes
 	}
 	cw.Flush()
 	res.Write(o)
